@@ -24,7 +24,7 @@ class Contract:
                  post=(), xpost=None, invariants=None, calls=None, trusted=False, pure_fn=None,
                  note="", inv_entry=True, inv_exit=True, two_state=None, labels=None,
                  covers=True, returns_type=None, raw_post=None, raw_xpost=None, raw_requires=None,
-                 ghost_locals=None, loop_modifies=None, kind="function", generator=False):
+                 ghost_locals=None, loop_modifies=None, kind="function", generator=False, pure_when=None):
         self.name = name
         self.params = params
         self.defaults = defaults or {}
@@ -51,6 +51,7 @@ class Contract:
         self.ghost_locals = ghost_locals or {}
         self.loop_modifies = loop_modifies or {}
         self.kind = kind
+        self.pure_when = pure_when      # spec condition (entry state) under which the call changes nothing
         self.generator = generator      # body is an @asynq generator: `yield` is a call to Yield
 
 
@@ -74,9 +75,11 @@ class Registry:
         self.inv_hooks = []     # callables(engine, heap) -> [z3]   object invariants
         self.two_state_hooks = []  # callables(engine, old, new) -> [z3]
         self.fresh_hooks = []   # callables(engine, state, obj, clsname): defaults of a fresh object
+        self.array_hooks = []   # callables(engine, field, array const) -> [z3]: facts about one field array
         self.wf_hooks = []      # callables(engine, heap) -> [z3]   assumed well-formedness
         self.extra_classes = {} # class name -> bases
         self.presence_fields = set()
+        self.disjoint_classes = []  # pairs of class names with no common subclass
 
     def add(self, c):
         if c.name in self.contracts:
